@@ -216,6 +216,42 @@ static void kdf_all(long which)
     }
 }
 
+/* ------------------------------------------------------------------ huge lengths (thorough): 2^29+1 bytes (the bit count passes 2^32) and
+ * 2^32+1 bytes (the byte count passes 2^32), on a virtual buffer that maps one 8 MiB pattern chunk over and over (no RAM needed) */
+#include <sys/mman.h>
+static unsigned char *alias_buffer(size_t total)
+{
+    size_t chunk = (size_t) 8 << 20, off, span; int fd = memfd_create("verif-alias", 0); unsigned char *base, *first;
+    if (fd < 0 || ftruncate(fd, (off_t) chunk)) return NULL;
+    span = (total + chunk - 1) / chunk * chunk;
+    base = mmap(NULL, span, PROT_NONE, MAP_PRIVATE | MAP_ANONYMOUS | MAP_NORESERVE, -1, 0);
+    if (base == MAP_FAILED) return NULL;
+    for (off = 0; off < span; off += chunk) if (mmap(base + off, chunk, PROT_READ | PROT_WRITE, MAP_SHARED | MAP_FIXED, fd, 0) == MAP_FAILED) return NULL;
+    close(fd); first = base; vf_pat(first, chunk, PAT_R1, 67);
+    return base;
+}
+static void huge_len(long it)
+{
+    static const unsigned long long HL[2] = { (1ULL << 29) + 1, (1ULL << 32) + 1 }; size_t len = (size_t) HL[it / 8]; int fn = (int) (it % 8);
+    unsigned char *m = alias_buffer(len + 64), key[64], o1[64], o2[64]; size_t cut = len / 2 + 3;
+    if (!m) { printf("INFO huge length %zu skipped: cannot map the aliased buffer\n", len); return; }
+    vf_pat(key, 64, PAT_R2, 66);
+    switch (fn) {
+    case 0: crypto_hash_sha256(o1, m, len); ref_sha256(o2, m, len); CMP("sha256/len=%zu/%s", o1, o2, 32, len, "huge"); break;
+    case 1: crypto_hash_sha512(o1, m, len); ref_sha512(o2, m, len); CMP("sha512/len=%zu/%s", o1, o2, 64, len, "huge"); break;
+    case 2: crypto_auth_hmacsha256(o1, m, len, key); ref_hmac_sha256(o2, key, 32, m, len); CMP("hmacsha256/len=%zu/%s", o1, o2, 32, len, "huge"); break;
+    case 3: crypto_generichash(o1, 64, m, len, key, 64); ref_blake2b(o2, 64, m, len, key, 64, NULL, NULL); CMP("generichash64-keyed/len=%zu/%s", o1, o2, 64, len, "huge"); break;
+    case 4: crypto_shorthash(o1, m, len, key); ref_siphash24(o2, m, len, key); CMP("shorthash/len=%zu/%s", o1, o2, 8, len, "huge");
+            crypto_onetimeauth(o1, m, len, key); ref_poly1305(o2, m, len, key); CMP("onetimeauth/len=%zu/%s", o1, o2, 16, len, "huge"); break;
+    case 5: { crypto_hash_sha256_state h2; crypto_hash_sha256_init(&h2); crypto_hash_sha256_update(&h2, m, cut); crypto_hash_sha256_update(&h2, m + cut, len - cut); crypto_hash_sha256_final(&h2, o1);
+              ref_sha256(o2, m, len); CMP("sha256-multipart/len=%zu/%s", o1, o2, 32, len, "huge"); } break;
+    case 6: { crypto_generichash_state gs; crypto_generichash_init(&gs, key, 64, 64); crypto_generichash_update(&gs, m, cut); crypto_generichash_update(&gs, m + cut, len - cut); crypto_generichash_final(&gs, o1, 64);
+              ref_blake2b(o2, 64, m, len, key, 64, NULL, NULL); CMP("generichash-multipart/len=%zu/%s", o1, o2, 64, len, "huge"); } break;
+    case 7: { crypto_hash_sha512_state hs; crypto_hash_sha512_init(&hs); crypto_hash_sha512_update(&hs, m, cut); crypto_hash_sha512_update(&hs, m + cut, len - cut); crypto_hash_sha512_final(&hs, o1);
+              ref_sha512(o2, m, len); CMP("sha512-multipart/len=%zu/%s", o1, o2, 64, len, "huge"); } break;
+    }
+}
+
 /* ------------------------------------------------------------------ crafted Poly1305 */
 static const unsigned char PBLK[7][16] = {
     { 0 }, { 1 },
@@ -450,6 +486,7 @@ int main(void)
     build_apis();
     vf_parallel(16, 0, (long) MAXLEN + 1, values_len, fin);
     vf_parallel(16, 0, 20, big_len, fin);
+    if (thorough && !getenv("SODIUM_VERIF_CPU_DISABLE")) vf_parallel(16, 0, 16, huge_len, fin);      /* once per build (unmasked configuration only) */
     vf_parallel(16, 0, 201, hmac_keylen, fin);
     vf_parallel(16, 1, 65, blake_outlen, fin);
     vf_parallel(16, 0, 23, kdf_all, fin);
